@@ -683,6 +683,21 @@ where
             .output_path
             .as_ref()
             .expect("output_path must be specified before processing.");
+        {
+            let mut lk = GENERATED_PATHS.lock().unwrap();
+            if lk.contains(outp.as_path()) {
+                return Err(format!("Generating two parsers to the same path ('{}') is not allowed: use CTParserBuilder::output_path (and, optionally, CTParserBuilder::mod_name) to differentiate them.", outp.to_str().unwrap()).into());
+            }
+            lk.insert(outp.clone());
+        }
+        // From here on this builder owns `outp`: whatever goes wrong (including a panic), a file
+        // generated by an earlier build (from an earlier grammar or with earlier settings) must not
+        // survive a failed build.
+        let mut stale_output = RemoveOutputOnFailure {
+            outp: outp.as_path(),
+            keep: false,
+        };
+
         let mut header = Header::new();
 
         match header.entry("yacckind".to_string()) {
@@ -729,20 +744,6 @@ where
                 }
             }
         }
-
-        {
-            let mut lk = GENERATED_PATHS.lock().unwrap();
-            if lk.contains(outp.as_path()) {
-                return Err(format!("Generating two parsers to the same path ('{}') is not allowed: use CTParserBuilder::output_path (and, optionally, CTParserBuilder::mod_name) to differentiate them.", outp.to_str().unwrap()).into());
-            }
-            lk.insert(outp.clone());
-        }
-        // From here on this builder owns `outp`: whatever goes wrong (including a panic), a file
-        // generated from an earlier version of the grammar must not survive a failed build.
-        let mut stale_output = RemoveOutputOnFailure {
-            outp: outp.as_path(),
-            keep: false,
-        };
 
         let inc = if let Some(grammar_src) = &self.grammar_src {
             grammar_src.clone()
